@@ -395,6 +395,60 @@ def ftrlRun [Transc α] (max35 : α) (r32 : α → α) (hp : FtrlHp α) (p : Nat
     (hist : List (List (List α) × List Bool)) : FState α :=
   hist.foldl (ftrlStep max35 r32 hp p) st
 
+/-! ### the glue around the steps: `Option` model in, guard, the caller's loop -/
+
+/-- `fit_with(model_in, batch)` of both naive-Bayes learners: `None` is the empty map
+(`HashMap::new()`), `guard` is what makes the call return `Err` (`none`), otherwise one step.
+Gaussian: `guard = nbGuard p` (the `?` on `max()` of the batch variances); multinomial: no error
+path at all (`guard = fun _ => true`: an empty batch is accepted and changes nothing). -/
+def nbFitWith {σ : Type} (step : σ → Batch α → σ) (empty : σ) (guard : Batch α → Bool)
+    (model : Option σ) (b : Batch α) : Option σ :=
+  if guard b then some (step (model.getD empty) b) else none
+
+/-- the caller's loop `model = params.fit_with(model, &batch)?` over a history: the models after every
+batch, `none` as soon as one call returns an error -/
+def nbFitHistory {σ : Type} (step : σ → Batch α → σ) (empty : σ) (guard : Batch α → Bool) :
+    Option σ → List (Batch α) → Option (List σ)
+  | _, [] => some []
+  | model, b :: rest =>
+    match nbFitWith step empty guard model b with
+    | none => none
+    | some s => (nbFitHistory step empty guard (some s) rest).map (s :: ·)
+
+/-- the fresh model of k-means `fit_with(None, ..)` with `KMeansInit::Precomputed(c0)`: the given
+centroids, `cluster_count = Array1::zeros(n_clusters)` -/
+def kmFresh (c0 : List (List α)) : KState α := ⟨c0, c0.map fun _ => 0⟩
+
+/-- k-means `fit_with(model, batch)`: `None` starts from the fresh model; the result carries the
+model whether it is `Ok(model)` or `Err(NotConverged(model))` -/
+def kmFitWith [Transc α] (m : Metric) (tol : α) (c0 : List (List α)) (model : Option (KState α))
+    (obs : List (List α)) : KState α × Bool × α :=
+  kmStepBy m tol (model.getD (kmFresh c0)) obs
+
+/-- the caller's loop `model = match fit_with(model.take(), &batch) { Ok(m) | Err(NotConverged(m)) => Some(m) }` -/
+def kmFitHistory [Transc α] (m : Metric) (tol : α) (c0 : List (List α)) :
+    Option (KState α) → List (List (List α)) → List (KState α × Bool × α)
+  | _, [] => []
+  | model, b :: rest =>
+    let r := kmFitWith m tol c0 model b
+    r :: kmFitHistory m tol c0 (some r.1) rest
+
+/-- `Ftrl::new(params, p)` with the initial `z` drawn by the caller's generator (`z0`) and `n = 0` -/
+def ftrlFresh (z0 : List α) : FState α := ⟨z0, z0.map fun _ => 0⟩
+
+/-- FTRL `fit_with(model_in, batch)`: `model_in.unwrap_or_else(|| Ftrl::new(..))`, then one step -/
+def ftrlFitWith [Transc α] (max35 : α) (r32 : α → α) (hp : FtrlHp α) (z0 : List α)
+    (model : Option (FState α)) (b : List (List α) × List Bool) : FState α :=
+  ftrlStep max35 r32 hp z0.length (model.getD (ftrlFresh z0)) b
+
+/-- the caller's loop over a history: the models after every batch -/
+def ftrlFitHistory [Transc α] (max35 : α) (r32 : α → α) (hp : FtrlHp α) (z0 : List α) :
+    Option (FState α) → List (List (List α) × List Bool) → List (FState α)
+  | _, [] => []
+  | model, b :: rest =>
+    let s := ftrlFitWith max35 r32 hp z0 model b
+    s :: ftrlFitHistory max35 r32 hp z0 (some s) rest
+
 end Generic
 
 end LinfaSpec.Incremental
